@@ -231,6 +231,40 @@ Theorem DSIG_sound_reader_first_signature : forall digest sig_ok parse_cert stor
 Proof. exact dsig_sound_reader_first_signature. Qed.
 Print Assumptions DSIG_sound_reader_first_signature.
 
+(* ---- the premise discharged for what the reader itself delivers (P_ReaderWf.v: an invariant of the tokenizer state kept by
+        every step, under which every emitted token is well formed; etree's tree building keeps it) ---- *)
+From V Require Import P_ReaderWf.
+
+(* every token RawToken delivers, to etree (which reads to the end) or to a lazy consumer, under either CharsetReader setting:
+   names pass isName / consist of name bytes / are split back by nsname, values are valid UTF-8 in the Char range, comments and
+   processing instructions are as the round trip needs them *)
+Theorem DSIG_reader_tokens_well_formed : forall cs b, forallb tok_ok (token_prefix cs b) = true.
+Proof. exact tokens_wf. Qed.
+Print Assumptions DSIG_reader_tokens_well_formed.
+
+(* whatever read_tree returns satisfies the premise of DSIG_canonical_bytes_reparse_to_prepared_tree unless it holds a directive
+   or a <?xml ...?> instruction inside (both are delivered by the real reader: DSIG_reader_examples' last conjunct) *)
+Theorem DSIG_reader_delivers_premise : forall b t, read_tree b = Ok t ->
+  reader_wf t = true /\ (has_directive_or_xml_pi t = false -> c14n_wf_elem t = true /\ c14n_wf t = true).
+Proof. exact read_tree_wf. Qed.
+Print Assumptions DSIG_reader_delivers_premise.
+
+(* from the wire bytes: the element handed to the verifier was read by the reader model, so no premise on names or values is
+   left; for the usual layout the accepted tree is normalise (prep c0 (read_tree b minus exactly that Signature element)) *)
+Theorem DSIG_sound_reader_from_bytes : forall digest sig_ok parse_cert store now b root v,
+  read_tree b = Ok root -> has_directive_or_xml_pi root = false ->
+  dsig_validate_reader digest sig_ok parse_cert store now root = DOk v ->
+  exists root' f sb sin sinfo2 r,
+    find_signature root = Ok (root', f) /\
+    canon_model (fs_si_alg f) (fs_si_detached f) = Some sb /\ reparse_model sb = Some sin /\
+    unmarshal_signed_info sin = Ok sinfo2 /\ r = last (si_refs sinfo2) zero_ref /\
+    (FirstSignature root (fs_path f) ->
+     forall t1 t2 c0, ref_transforms r = [t1; t2] -> tr_alg t1 = alg_enveloped -> c14n_of t2 = Some c0 ->
+       exists body p,
+         remove_at_path root (fs_path f) = Some body /\ canon_prep c0 body = Some p /\ v = normalise p).
+Proof. exact dsig_sound_reader_from_bytes. Qed.
+Print Assumptions DSIG_sound_reader_from_bytes.
+
 (* non-vacuity, by vm_compute: an element with shuffled attributes, TAB / '>' / a double quote in a value, U+000D in character
    data, adjacent character data, a comment, two processing instructions and a redundant declaration is read back as its
    prepared tree under all eight algorithm settings; what the premise excludes is really refused (a comment with "--") or
@@ -241,6 +275,7 @@ Theorem DSIG_reader_examples :
   read_tree (c14n_write (Elem "" "a" [] [Comment "x--y"])) = Err syntax_error /\
   read_tree (c14n_write (Elem "" "a" [] [Text (String (byte 255) "")])) = Ok (Elem "" "a" [] [Text repl_char]) /\
   read_tree (c14n_write (Elem "" "a" [] [ProcInst "pi" " x"])) = Ok (Elem "" "a" [] [ProcInst "pi" "x"]) /\
+  read_tree "<a><!DOCTYPE x><?xml version=""1.0""?></a>" = Ok (Elem "" "a" [] [Directive "DOCTYPE x"; ProcInst "xml" "version=""1.0"""]) /\
   dsig_validate_reader ReaderExample.digest_any ReaderExample.sig_ok_sig ReaderExample.no_cert_parser [Example.the_cert] ReaderExample.t150
     ReaderExample.doc2
   = DOk (Elem "" "Root" [Example.A "ID" "x"]
@@ -249,6 +284,7 @@ Proof.
   exact (conj ReaderExample.every_algorithm_reads_back
           (conj ReaderExample.comment_with_double_dash_not_read_back
              (conj ReaderExample.invalid_utf8_not_read_back
-                (conj ReaderExample.pi_with_leading_space_changed (proj2 ReaderExample.accepted_tree_is_the_prepared_tree))))).
+                (conj ReaderExample.pi_with_leading_space_changed
+                   (conj directive_inside_is_delivered (proj2 ReaderExample.accepted_tree_is_the_prepared_tree)))))).
 Qed.
 Print Assumptions DSIG_reader_examples.
